@@ -2,7 +2,7 @@ from pyvc.cbase import Registry
 
 
 def build_registry():
-    from . import externs, expect, spawnbase, screen, ansi, utils, transports, lifecycle, readpath, pxssh, run, replwrap, aio
+    from . import externs, expect, spawnbase, screen, ansi, utils, transports, lifecycle, readpath, pxssh, run, replwrap, aio, patterns
     reg = Registry()
     externs.register(reg)
     spawnbase.register(reg)
@@ -17,4 +17,5 @@ def build_registry():
     run.register(reg)
     replwrap.register(reg)
     aio.register(reg)
+    patterns.register(reg)
     return reg
